@@ -14,7 +14,9 @@ LEVEL_TEXT = ("Coq theorems over the session model and the extension layer model
               "them - the first listener that answers decides the session's reply code for code (first_deny_decides_mail/rcpt, first_allow_decides_rcpt), an explicit "
               "defer is an answer that ends the chain and hands the decision to the policy (explicit_defer_ends_the_chain), a Lua handler that raised or returned "
               "anything but a response is a listener that is not there (broken_lua_handler_is_absent), and the first listener returning a message decides what is "
-              "stored (first_replacement_decides); tied to the code by generated Lua scripts whose outcome class is "
+              "stored (first_replacement_decides); the order of the listeners is the order of registration and survives removal or replacement of one of them "
+              "(Proofs/HooksChain.v over chain_add / chain_remove = AddListener / RemoveListener: removal_keeps_the_order_of_the_others, readded_listener_goes_last, "
+              "removal_does_not_reorder_answers; the luareload stream loads the script a second time next to two Go listeners); tied to the code by generated Lua scripts whose outcome class is "
               "known by construction, installed with the real luahost and run against real SMTP sessions sequentially and from up to 8 "
               "concurrent sessions. *Partial*: gopher-lua and the script=>outcome mapping are tested, not proved; several theorems (deny_literal_rcpt, erroring_*_is_silent, "
               "replacement_*, defer_is_policy) unfold three-line definitions: that the handlers map a Lua outcome to an answer THIS way is the model's transcription "
@@ -49,7 +51,7 @@ def project(kind, ins, outs):
 
 def shrink_candidates(inp):
     parts = inp.split(" ")
-    if parts[0] != "lua" or len(parts) < 17:
+    if parts[0] not in ("lua", "luareload") or len(parts) < 17:
         return
     raw = bytes.fromhex(parts[12]) if parts[12] != "-" else b""
     chunks = raw.split(b"\n")
